@@ -82,6 +82,38 @@ int main(void) {
                 free(out); free(exact);
             }
             carquet_buffer_destroy(&b); free(v);
+        } else if (!strcmp(op, "rle_rtrun") && h_ntok == 5) {
+            /* rle_rtrun <w> <k> <v> <count>: the sequence  k alternating literals, count x v, one other value
+               is encoded with carquet_rle_encode_all and decoded with decode_all, decode_levels and
+               decode_levels_prefixed; prints the first index at which each decoder differs from the input
+               (-1 = equal) - long runs whose header needs 4 varint bytes cannot travel as tokens */
+            int w = atoi(h_tok[1]); int64_t k = atoll(h_tok[2]); uint32_t v = (uint32_t)strtoul(h_tok[3], NULL, 10);
+            int64_t cnt = atoll(h_tok[4]); int64_t n = k + cnt + 1;
+            uint32_t top = w >= 32 ? 0xFFFFFFFFu : ((1u << w) - 1);
+            uint32_t* in = malloc((size_t)n * sizeof(uint32_t));
+            for (int64_t i = 0; i < k; i++) in[i] = (uint32_t)((i & 1) ? (v ^ 1) & top : (v ^ 2) & top);
+            for (int64_t i = 0; i < cnt; i++) in[k + i] = v & top;
+            in[n - 1] = (v ^ 1) & top;
+            carquet_buffer_t b; carquet_buffer_init(&b);
+            carquet_status_t st = carquet_rle_encode_all(in, n, w, &b);
+            if (st != CARQUET_OK) { printf("ERR %d\n", (int)st); }
+            else {
+                uint8_t* exact = malloc(b.size + 4);
+                uint32_t len = (uint32_t)b.size; memcpy(exact, &len, 4); memcpy(exact + 4, b.data, b.size);
+                uint32_t* o32 = malloc((size_t)n * sizeof(uint32_t)); int16_t* o16 = malloc((size_t)n * sizeof(int16_t));
+                int64_t bad_all = -1, bad_lvl = -1, bad_pre = -1; size_t consumed = 0;
+                int64_t g = carquet_rle_decode_all(exact + 4, b.size, w, o32, n);
+                if (g != n) bad_all = g < 0 ? 0 : g; else for (int64_t i = 0; i < n; i++) if (o32[i] != in[i]) { bad_all = i; break; }
+                if (w <= 15) {
+                    g = carquet_rle_decode_levels(exact + 4, b.size, w, o16, n);
+                    if (g != n) bad_lvl = g < 0 ? 0 : g; else for (int64_t i = 0; i < n; i++) if ((uint32_t)(uint16_t)o16[i] != in[i]) { bad_lvl = i; break; }
+                    g = carquet_rle_decode_levels_prefixed(exact, b.size + 4, w, o16, n, &consumed);
+                    if (g != n || consumed != b.size + 4) bad_pre = g < 0 ? 0 : g; else for (int64_t i = 0; i < n; i++) if ((uint32_t)(uint16_t)o16[i] != in[i]) { bad_pre = i; break; }
+                }
+                printf("OK n=%lld bytes=%zu all=%lld levels=%lld prefixed=%lld\n", (long long)n, b.size, (long long)bad_all, (long long)bad_lvl, (long long)bad_pre);
+                free(o32); free(o16); free(exact);
+            }
+            carquet_buffer_destroy(&b); free(in);
         } else if (!strcmp(op, "rle_dec") && h_ntok == 4) {
             int w = atoi(h_tok[1]); int64_t want = atoll(h_tok[2]); size_t n; void* base;
             uint8_t* in = h_unhex(h_tok[3], &n, 0, &base);
